@@ -855,6 +855,14 @@ def part_fixpoint(ctx):
     aff = obs.affine
     if ctx.tier == "quick" and len(aff) > 40:
         aff = sorted(aff, key=lambda e_: -e_["ninsts"])[:12] + rnd.sample(sorted(aff, key=lambda e_: -e_["ninsts"])[12:], 28)
+    # hand-made families: add/sub/assign chains the corpus never produces (literal minus variable, re-used roots, ...)
+    fam = c14_fix.affine_family(rnd, 150 if ctx.tier == "quick" else 1500)
+    for e_ in [e_ for e_ in fam if "error" in e_][:2]:
+        ctx.violation("failing-input", "AffineFoldingPass raises on a well-formed function: " + e_["error"], {"venom": e_["text"]},
+                      key="affine:exception:" + e_["error"][:60])
+    fam = [e_ for e_ in fam if "error" not in e_]
+    astats["family_functions_rewritten"] = len(fam)
+    aff = aff + fam
     afound = False
     if (COQ / "C14" / "RangeAffine.vo").exists() and aff:
         try:
